@@ -1,5 +1,5 @@
 import SaModel.Props.C04
-import SaModel.Props.C01Complete
+import SaModel.Props.C01CompleteObs
 import SaModel.Lemmas.C04Accept
 import SaModel.Props.C03Traced
 import SaModel.Props.C03Codec
@@ -16,17 +16,17 @@ tuples / tuple structs / arrays, ENUMS with unit / newtype / tuple / struct vari
   explored every variant —, unions with 1 … 128 variants whose first variant takes `serialize_default`);
 * represents every well-typed value in scope (`C04_interpRow`),
 
-so, by C01's completeness theorem (`Props.C01.runRows_complete`), every batch of well-typed values whose explicit size
-`Σ vsize (ser t v)` stays within `2^31 - 1` is accepted row by row: `runRows … = ok root` — and `build_arrays` cannot refuse
-(`Props.C01.toMarrow_complete`, i.e. `finish_total`; its typing hypothesis `typedFs` holds of every traced schema,
-`Props.C03.fromType_good`), so `to_marrow` succeeds (`C04_accept_traced`).  `from_type` itself succeeds on every walkable,
+so, by C01's completeness theorem on the weak state invariant (`Props.C01.runRows_complete'`: NO `Safe` hypothesis), every
+batch of well-typed values whose explicit size `Σ vsize (ser t v)` stays within `2^31 - 1` is accepted row by row:
+`runRows … = ok root` — and `build_arrays` cannot refuse (`Props.C01.toMarrow_complete'`, i.e. `finish_totalH`; its typing
+hypothesis `typedFs` holds of every traced schema, `Props.C03.fromType_good`), so `to_marrow` succeeds (`C04_accept_traced`).  `from_type` itself succeeds on every walkable,
 mappable type within the pass budget (`C04_fromType_ok`): `C04_accept`, `C04_end_to_end_partial` have no hypothesis about
 its result.
 -/
 namespace SaModel.Props.C04
 open SaModel SaModel.Build SaModel.Spec SaModel.Roundtrip
 
-/-- the hypotheses of C01's completeness theorems (`runRows_complete`, `toMarrow_complete`) for the schema traced from a
+/-- the hypotheses of C01's completeness theorems (`runRows_complete'`, `toMarrow_complete'`) for the schema traced from a
 record type of the grammar and a batch of well-typed values in scope within the capacity bound -/
 theorem accept_hyps (c : Trace.Code) (O : Trace.Options) (ext : Ext) (n : String) (fs : TFields) (vs : List Val)
     (fields : List Field)
@@ -58,27 +58,25 @@ theorem accept_hyps (c : Trace.Code) (O : Trace.Options) (ext : Ext) (n : String
 
 /-- **Acceptance, row by row.**  `t = struct n fs` in `fragE`, enums with 1 … 128 variants, any tracing options without
 overwrites, any batch of well-typed values in scope within the capacity bound: every `push` succeeds, and `to_marrow` is
-`build_arrays` of the final state.  Hypotheses: `hsafe` (C01's `Safe`, as the decidable schema condition `safeFs`), `hcap`
-(explicit capacity bound: offsets are `i32`). -/
+`build_arrays` of the final state.  Remaining hypothesis beside the documented ones: `hcap` (explicit capacity bound:
+offsets are `i32`).  No `Safe` (the former `hsafe : safeFs …`): `Props.C01.runRows_complete'`. -/
 theorem C04_accept_rows (c : Trace.Code) (O : Trace.Options) (ext : Ext) (n : String) (fs : TFields) (vs : List Val)
     (fields : List Field)
     (h0 : O.overwrites = []) (hfrag : fragE (.struct n fs) = true) (hsz : sized (.struct n fs) = true)
     (hwt : ∀ v ∈ vs, wt (.struct n fs) v = true)
     (hsc : ∀ v ∈ vs, inScopeO (viewOpts O) (.struct n fs) v = true)
     (hft : Trace.fromType c O (toTraceTy (.struct n fs)) = .ok fields)
-    (hsafe : safeFs (mappingFields (viewOpts O) fs) = true)
     (hcap : ((vs.map (ser (.struct n fs))).map (vsize ext)).sum ≤ 2147483647) :
     ∃ root, runRows ext fields (vs.map (ser (.struct n fs))) = .ok root ∧
       toMarrow ext fields (vs.map (ser (.struct n fs))) = (do let (arrs, _) ← buildArrays ext root; pure arrs) := by
   obtain ⟨root0, hr0, hc, htot, _, hrows, hroom⟩ := accept_hyps c O ext n fs vs fields h0 hfrag hsz hwt hsc hft hcap
-  have hs := C04_safe_traced (viewOpts O) fs fields (C04_fromType_fields c O h0 n fs fields hft) hsafe
-  obtain ⟨root, h⟩ := Props.C01.runRows_complete ext fields _ root0 hc hr0 (hs root0 hr0) htot hrows hroom
+  obtain ⟨root, h⟩ := Props.C01.runRows_complete' ext fields _ root0 hc hr0 htot hrows hroom
   exact ⟨root, h, by rw [Props.C03.toMarrow_eq, h]; rfl⟩
 
 /-- **Acceptance of the traced schema**: `to_marrow` SUCCEEDS on every batch of well-typed values in scope of a record type
 of the grammar against the schema `from_type` returned for it (any tracing options without overwrites, enums and
-dictionary-encoded strings included; explicit capacity bound).  `build_arrays` cannot refuse (`Props.C01.toMarrow_complete`:
-`finish_total` on the well-formed final state, the typing invariant `typedFs` of the traced schema by
+dictionary-encoded strings included — also directly below an `Option<struct>`, `exSafeFalse`; explicit capacity bound).
+`build_arrays` cannot refuse (`Props.C01.toMarrow_complete'`: `finish_totalH` on the weak invariant of the final state, the typing invariant `typedFs` of the traced schema by
 `Props.C03.fromType_good`). -/
 theorem C04_accept_traced (c : Trace.Code) (O : Trace.Options) (ext : Ext) (n : String) (fs : TFields) (vs : List Val)
     (fields : List Field)
@@ -86,18 +84,15 @@ theorem C04_accept_traced (c : Trace.Code) (O : Trace.Options) (ext : Ext) (n : 
     (hwt : ∀ v ∈ vs, wt (.struct n fs) v = true)
     (hsc : ∀ v ∈ vs, inScopeO (viewOpts O) (.struct n fs) v = true)
     (hft : Trace.fromType c O (toTraceTy (.struct n fs)) = .ok fields)
-    (hsafe : safeFs (mappingFields (viewOpts O) fs) = true)
     (hcap : ((vs.map (ser (.struct n fs))).map (vsize ext)).sum ≤ 2147483647) :
     ∃ arrs, toMarrow ext fields (vs.map (ser (.struct n fs))) = .ok arrs := by
   obtain ⟨root0, hr0, hc, htot, htyped, hrows, hroom⟩ := accept_hyps c O ext n fs vs fields h0 hfrag hsz hwt hsc hft hcap
-  have hs := C04_safe_traced (viewOpts O) fs fields (C04_fromType_fields c O h0 n fs fields hft) hsafe
-  exact Props.C01.toMarrow_complete ext fields _ root0 hc hr0 (hs root0 hr0) htot htyped hrows hroom
+  exact Props.C01.toMarrow_complete' ext fields _ root0 hc hr0 htot htyped hrows hroom
 
 /-- **Acceptance, complete** — no hypothesis about the result of `from_type`: for a record type of the grammar that can be
 walked and mapped (the documented preconditions `Spec.walkable`, `mappable`) within the pass budget, `from_type` returns a
 schema and `to_marrow` accepts every batch of well-typed values in scope against it.  Remaining hypotheses, all decidable
-conditions on type × options or explicit bounds: `sized` (1 … 128 variants), `safeFs` (C01's exclusion), the budget, the
-capacity bound. -/
+conditions on type × options or explicit bounds: `sized` (1 … 128 variants), the budget, the capacity bound. -/
 theorem C04_accept (c : Trace.Code) (O : Trace.Options) (ext : Ext) (n : String) (fs : TFields) (vs : List Val)
     (h0 : O.overwrites = []) (hfrag : fragE (.struct n fs) = true) (hsz : sized (.struct n fs) = true)
     (hwt : ∀ v ∈ vs, wt (.struct n fs) v = true)
@@ -105,26 +100,11 @@ theorem C04_accept (c : Trace.Code) (O : Trace.Options) (ext : Ext) (n : String)
     (hw : Trace.Spec.walkable O "$" (toTraceTy (.struct n fs)) = true)
     (hm : mappable (viewOpts O) (.struct n fs) = true)
     (hb : Trace.Spec.passes (toTraceTy (.struct n fs)) ≤ O.from_type_budget)
-    (hsafe : safeFs (mappingFields (viewOpts O) fs) = true)
     (hcap : ((vs.map (ser (.struct n fs))).map (vsize ext)).sum ≤ 2147483647) :
     ∃ fields, Trace.fromType c O (toTraceTy (.struct n fs)) = .ok fields ∧
       ∃ arrs, toMarrow ext fields (vs.map (ser (.struct n fs))) = .ok arrs :=
   ⟨_, C04_fromType_ok c O h0 n fs hw hm hb,
-    C04_accept_traced c O ext n fs vs _ h0 hfrag hsz hwt hsc (C04_fromType_ok c O h0 n fs hw hm hb) hsafe hcap⟩
-
-/-- `C04_accept` with `Safe` derived, for tracing options that produce no Dictionary column -/
-theorem C04_accept_nodict (c : Trace.Code) (O : Trace.Options) (ext : Ext) (n : String) (fs : TFields) (vs : List Val)
-    (h0 : O.overwrites = []) (hd : O.string_dictionary_encoding = false) (he : O.enums_without_data_as_strings = false)
-    (hfrag : fragE (.struct n fs) = true) (hsz : sized (.struct n fs) = true)
-    (hwt : ∀ v ∈ vs, wt (.struct n fs) v = true)
-    (hsc : ∀ v ∈ vs, inScopeO (viewOpts O) (.struct n fs) v = true)
-    (hw : Trace.Spec.walkable O "$" (toTraceTy (.struct n fs)) = true)
-    (hm : mappable (viewOpts O) (.struct n fs) = true)
-    (hb : Trace.Spec.passes (toTraceTy (.struct n fs)) ≤ O.from_type_budget)
-    (hcap : ((vs.map (ser (.struct n fs))).map (vsize ext)).sum ≤ 2147483647) :
-    ∃ fields, Trace.fromType c O (toTraceTy (.struct n fs)) = .ok fields ∧
-      ∃ arrs, toMarrow ext fields (vs.map (ser (.struct n fs))) = .ok arrs :=
-  C04_accept c O ext n fs vs h0 hfrag hsz hwt hsc hw hm hb (C04_safeFs_nodict (viewOpts O) hd he fs) hcap
+    C04_accept_traced c O ext n fs vs _ h0 hfrag hsz hwt hsc (C04_fromType_ok c O h0 n fs hw hm hb) hcap⟩
 
 /-- **C04 end to end against a traced schema**: serialization against the schema `from_type` returned succeeds, and reading
 everything back returns the batch, normalised (`norm` is the identity for `plainOpt` types: `C04_norm_eq_self`). -/
@@ -135,23 +115,22 @@ theorem C04_end_to_end_traced_partial (c : Trace.Code) (O : Trace.Options) (ext 
     (hsc : ∀ v ∈ vs, inScopeO (viewOpts O) (.struct n fs) v = true)
     (hext : Lemmas.C03.ExtOK ext)
     (hft : Trace.fromType c O (toTraceTy (.struct n fs)) = .ok fields)
-    (hsafe : safeFs (mappingFields (viewOpts O) fs) = true)
     (hcap : ((vs.map (ser (.struct n fs))).map (vsize ext)).sum ≤ 2147483647) :
     ∃ arrs, toMarrow ext fields (vs.map (ser (.struct n fs))) = .ok arrs ∧
       ((∀ a ∈ arrs, Read.physical a = true) →
         readAll (toTarget (.struct n fs)) fields arrs = .ok (vs.map fun v => dvalOf (.struct n fs) (norm (.struct n fs) v))) := by
-  obtain ⟨arrs, htm⟩ := C04_accept_traced c O ext n fs vs fields h0 hfrag hsz hwt hsc hft hsafe hcap
+  obtain ⟨arrs, htm⟩ := C04_accept_traced c O ext n fs vs fields h0 hfrag hsz hwt hsc hft hcap
   exact ⟨arrs, htm, fun hphys =>
-    C04_roundtrip_bulk_partial c O ext n fs vs fields arrs h0 hfrag hne hwt hsc hext hsafe hphys hft htm⟩
+    C04_roundtrip_bulk_partial c O ext n fs vs fields arrs h0 hfrag hne hwt hsc hext hphys hft htm⟩
 
 /-- **C04 end to end** — the property itself: for a record type of the grammar (enums included) with at least one field that
 can be walked and mapped within the pass budget, `from_type` returns a schema, serializing any batch of well-typed values in
 scope against it succeeds, and reading everything back returns the batch, normalised.
 `_partial`, exactly because of `hext` (the external chrono parsers return values in range: asked unconditionally by
-`Props.C03.C03_wf`, irrelevant for traced schemas, which have no temporal column) and `hphys` in the conclusion
+`Props.C01.C03_wf'`, irrelevant for traced schemas, which have no temporal column) and `hphys` in the conclusion
 (`Read.physical`: the value count of a Dictionary column fits `i64` — true of any array in memory, not derivable for Lean's
-unbounded lists).  Everything else is a decidable condition on type × options (`fragE`, `sized`, `walkable`, `mappable`,
-`safeFs`), the documented exclusion `inScopeO` on the values, the pass budget and the capacity bound. -/
+unbounded lists).  Everything else is a decidable condition on type × options (`fragE`, `sized`, `walkable`, `mappable`;
+NO `Safe` / `safeFs`), the documented exclusion `inScopeO` on the values, the pass budget and the capacity bound. -/
 theorem C04_end_to_end_partial (c : Trace.Code) (O : Trace.Options) (ext : Ext) (n : String) (fs : TFields) (vs : List Val)
     (h0 : O.overwrites = []) (hfrag : fragE (.struct n fs) = true) (hsz : sized (.struct n fs) = true) (hne : fs ≠ .nil)
     (hwt : ∀ v ∈ vs, wt (.struct n fs) v = true)
@@ -160,32 +139,14 @@ theorem C04_end_to_end_partial (c : Trace.Code) (O : Trace.Options) (ext : Ext) 
     (hw : Trace.Spec.walkable O "$" (toTraceTy (.struct n fs)) = true)
     (hm : mappable (viewOpts O) (.struct n fs) = true)
     (hb : Trace.Spec.passes (toTraceTy (.struct n fs)) ≤ O.from_type_budget)
-    (hsafe : safeFs (mappingFields (viewOpts O) fs) = true)
     (hcap : ((vs.map (ser (.struct n fs))).map (vsize ext)).sum ≤ 2147483647) :
     ∃ fields arrs, Trace.fromType c O (toTraceTy (.struct n fs)) = .ok fields ∧
       toMarrow ext fields (vs.map (ser (.struct n fs))) = .ok arrs ∧
       ((∀ a ∈ arrs, Read.physical a = true) →
         readAll (toTarget (.struct n fs)) fields arrs = .ok (vs.map fun v => dvalOf (.struct n fs) (norm (.struct n fs) v))) := by
   have hft := C04_fromType_ok c O h0 n fs hw hm hb
-  obtain ⟨arrs, htm, hread⟩ := C04_end_to_end_traced_partial c O ext n fs vs _ h0 hfrag hsz hne hwt hsc hext hft hsafe hcap
+  obtain ⟨arrs, htm, hread⟩ := C04_end_to_end_traced_partial c O ext n fs vs _ h0 hfrag hsz hne hwt hsc hext hft hcap
   exact ⟨_, arrs, hft, htm, hread⟩
-
-/-- `C04_end_to_end_partial` with `Safe` derived, for tracing options that produce no Dictionary column -/
-theorem C04_end_to_end_nodict_partial (c : Trace.Code) (O : Trace.Options) (ext : Ext) (n : String) (fs : TFields) (vs : List Val)
-    (h0 : O.overwrites = []) (hd : O.string_dictionary_encoding = false) (he : O.enums_without_data_as_strings = false)
-    (hfrag : fragE (.struct n fs) = true) (hsz : sized (.struct n fs) = true) (hne : fs ≠ .nil)
-    (hwt : ∀ v ∈ vs, wt (.struct n fs) v = true)
-    (hsc : ∀ v ∈ vs, inScopeO (viewOpts O) (.struct n fs) v = true)
-    (hext : Lemmas.C03.ExtOK ext)
-    (hw : Trace.Spec.walkable O "$" (toTraceTy (.struct n fs)) = true)
-    (hm : mappable (viewOpts O) (.struct n fs) = true)
-    (hb : Trace.Spec.passes (toTraceTy (.struct n fs)) ≤ O.from_type_budget)
-    (hcap : ((vs.map (ser (.struct n fs))).map (vsize ext)).sum ≤ 2147483647) :
-    ∃ fields arrs, Trace.fromType c O (toTraceTy (.struct n fs)) = .ok fields ∧
-      toMarrow ext fields (vs.map (ser (.struct n fs))) = .ok arrs ∧
-      ((∀ a ∈ arrs, Read.physical a = true) →
-        readAll (toTarget (.struct n fs)) fields arrs = .ok (vs.map fun v => dvalOf (.struct n fs) (norm (.struct n fs) v))) :=
-  C04_end_to_end_partial c O ext n fs vs h0 hfrag hsz hne hwt hsc hext hw hm hb (C04_safeFs_nodict (viewOpts O) hd he fs) hcap
 
 /-- **C04 end to end at the codec models**: with the external string parsers instantiated by the models of C14
 (`Props.C16.codecExt`, what the correspondence driver runs), `ExtOK` is a theorem (`Props.C03.codecExt_ok`) and the
@@ -198,20 +159,19 @@ theorem C04_end_to_end_codec_partial (f32Str f64Str : Nat → String) (cast : Na
     (hw : Trace.Spec.walkable O "$" (toTraceTy (.struct n fs)) = true)
     (hm : mappable (viewOpts O) (.struct n fs) = true)
     (hb : Trace.Spec.passes (toTraceTy (.struct n fs)) ≤ O.from_type_budget)
-    (hsafe : safeFs (mappingFields (viewOpts O) fs) = true)
     (hcap : ((vs.map (ser (.struct n fs))).map (vsize (Props.C16.codecExt f32Str f64Str cast))).sum ≤ 2147483647) :
     ∃ fields arrs, Trace.fromType c O (toTraceTy (.struct n fs)) = .ok fields ∧
       toMarrow (Props.C16.codecExt f32Str f64Str cast) fields (vs.map (ser (.struct n fs))) = .ok arrs ∧
       ((∀ a ∈ arrs, Read.physical a = true) →
         readAll (toTarget (.struct n fs)) fields arrs = .ok (vs.map fun v => dvalOf (.struct n fs) (norm (.struct n fs) v))) :=
-  C04_end_to_end_partial c O _ n fs vs h0 hfrag hsz hne hwt hsc (Props.C03.codecExt_ok f32Str f64Str cast) hw hm hb hsafe hcap
+  C04_end_to_end_partial c O _ n fs vs h0 hfrag hsz hne hwt hsc (Props.C03.codecExt_ok f32Str f64Str cast) hw hm hb hcap
 
 /-- **C04 end to end, COMPLETE, for traced schemas without Dictionary columns** (`string_dictionary_encoding` and
 `enums_without_data_as_strings` off — the defaults), at the codec models of the external parsers: for every record type of
 the grammar (enums as Unions included) with at least one field that can be walked and mapped within the pass budget,
 `from_type` returns a schema, serializing any batch of well-typed values in scope (within the capacity bound) against it
-succeeds, and reading everything back returns the batch, normalised.  NO residual hypothesis: `Safe`, `Read.physical` and
-`ExtOK` are all derived; what is left are decidable conditions on type × options (`fragE`, `sized`, `walkable`, `mappable`),
+succeeds, and reading everything back returns the batch, normalised.  NO residual hypothesis: `Read.physical` and
+`ExtOK` are derived (and `Safe` is not needed); what is left are decidable conditions on type × options (`fragE`, `sized`, `walkable`, `mappable`),
 the documented exclusion `inScopeO` (= the driver's `noneAtUnion`; `strOK` is vacuous here: no string-stored enum), the pass
 budget and the explicit capacity bound. -/
 theorem C04_end_to_end_plain (f32Str f64Str : Nat → String) (cast : Nat → Int → Bool → Nat → Option (Bool × Int))
@@ -228,8 +188,7 @@ theorem C04_end_to_end_plain (f32Str f64Str : Nat → String) (cast : Nat → In
       toMarrow (Props.C16.codecExt f32Str f64Str cast) fields (vs.map (ser (.struct n fs))) = .ok arrs ∧
       readAll (toTarget (.struct n fs)) fields arrs = .ok (vs.map fun v => dvalOf (.struct n fs) (norm (.struct n fs) v)) := by
   have hft := C04_fromType_ok c O h0 n fs hw hm hb
-  obtain ⟨arrs, htm⟩ := C04_accept_traced c O (Props.C16.codecExt f32Str f64Str cast) n fs vs _ h0 hfrag hsz hwt hsc hft
-    (C04_safeFs_nodict (viewOpts O) hd he fs) hcap
+  obtain ⟨arrs, htm⟩ := C04_accept_traced c O (Props.C16.codecExt f32Str f64Str cast) n fs vs _ h0 hfrag hsz hwt hsc hft hcap
   exact ⟨_, arrs, hft, htm, C04_roundtrip_bulk_plain_partial c O _ n fs vs _ arrs h0 hd he hfrag hne hwt hsc
     (Props.C03.codecExt_ok f32Str f64Str cast) hft htm⟩
 
@@ -240,14 +199,14 @@ example : ((exBatch.map (ser exFragRoot)).map (vsize {})).sum ≤ 2147483647 := 
 example : ∃ root, runRows {} exFields (exBatch.map (ser exFragRoot)) = .ok root ∧
     toMarrow {} exFields (exBatch.map (ser exFragRoot)) = (do let (arrs, _) ← buildArrays {} root; pure arrs) :=
   C04_accept_rows .fixed exO {} "Root" _ exBatch exFields rfl (by decide +kernel) (by decide +kernel) (by decide +kernel)
-    (by decide +kernel) exTrace (by decide +kernel) (by decide +kernel)
+    (by decide +kernel) exTrace (by decide +kernel)
 
 /-- the whole property on the enum-free example: nothing is assumed about `from_type` -/
 example : ∃ fields arrs, Trace.fromType .fixed exO (toTraceTy exFragRoot) = .ok fields ∧
     toMarrow {} fields (exBatch.map (ser exFragRoot)) = .ok arrs ∧
     ((∀ a ∈ arrs, Read.physical a = true) →
       readAll (toTarget exFragRoot) fields arrs = .ok (exBatch.map fun v => dvalOf exFragRoot (norm exFragRoot v))) :=
-  C04_end_to_end_nodict_partial .fixed exO {} "Root" _ exBatch rfl rfl rfl (by decide +kernel) (by decide +kernel) (by simp)
+  C04_end_to_end_partial .fixed exO {} "Root" _ exBatch rfl (by decide +kernel) (by decide +kernel) (by simp)
     (by decide +kernel) (by decide +kernel) exExtOK (by decide +kernel) (by decide +kernel) (by decide +kernel) (by decide +kernel)
 
 /-! non-vacuity WITH ENUMS: `exRoot` of `Props/C04.lean` (an enum with all four variant kinds traced to a Union, nested
@@ -262,7 +221,7 @@ example : ∃ fields arrs, Trace.fromType .fixed exEO (toTraceTy exRoot) = .ok f
     toMarrow {} fields (exEBatch.map (ser exRoot)) = .ok arrs ∧
     ((∀ a ∈ arrs, Read.physical a = true) →
       readAll (toTarget exRoot) fields arrs = .ok (exEBatch.map fun v => dvalOf exRoot (norm exRoot v))) :=
-  C04_end_to_end_nodict_partial .fixed exEO {} "Root" _ exEBatch rfl rfl rfl (by decide +kernel) (by decide +kernel) (by simp)
+  C04_end_to_end_partial .fixed exEO {} "Root" _ exEBatch rfl (by decide +kernel) (by decide +kernel) (by simp)
     (by decide +kernel) (by decide +kernel) exExtOK (by decide +kernel) (by decide +kernel) (by decide +kernel) (by decide +kernel)
 
 /-- … and completely, with nothing assumed (codec parsers; the float / decimal tables of the codec record play no role for
@@ -277,10 +236,10 @@ example : ∃ fields arrs, Trace.fromType .fixed exEO (toTraceTy exRoot) = .ok f
 example : ∃ fields, Trace.fromType .fixed exSO (toTraceTy exSRoot) = .ok fields ∧
     ∃ arrs, toMarrow {} fields (exSBatch.map (ser exSRoot)) = .ok arrs :=
   C04_accept .fixed exSO {} "S" _ exSBatch rfl (by decide +kernel) (by decide +kernel) (by decide +kernel) (by decide +kernel)
-    (by decide +kernel) (by decide +kernel) (by decide +kernel) (by decide +kernel) (by decide +kernel)
+    (by decide +kernel) (by decide +kernel) (by decide +kernel) (by decide +kernel)
 
 /-! non-vacuity of `C04_accept_traced` WITH dictionary-encoded strings: a record type with a `String` and an
-`Option<String>` traces to two `Dictionary(UInt32, LargeUtf8)` columns; the schema condition `safeFs` holds -/
+`Option<String>` traces to two `Dictionary(UInt32, LargeUtf8)` columns -/
 
 def exDO : Trace.Options := { map_as_struct := false, string_dictionary_encoding := true }
 def exDRoot : Ty := .struct "D" (.cons "s" false (.prim .str) (.cons "t" false (.option (.prim .str)) .nil))
@@ -295,14 +254,44 @@ example : exDFields = [.mk "s" (.dictionary .uint32 .largeUtf8) false [], .mk "t
 
 example : ∃ arrs, toMarrow {} exDFields (exDBatch.map (ser exDRoot)) = .ok arrs :=
   C04_accept_traced .fixed exDO {} "D" _ exDBatch exDFields rfl (by decide +kernel) (by decide +kernel) (by decide +kernel)
-    (by decide +kernel) exDTrace (by decide +kernel) (by decide +kernel)
+    (by decide +kernel) exDTrace (by decide +kernel)
 
-/-- the `Safe` exclusion is real and stays explicit: a dictionary-encoded `String` directly below an `Option<struct>` makes
-`safeFs` false (C01's known exclusion `dict_placeholder_unstable`), a nullable one (`Option<String>`) does not -/
+/-! ### the former `Safe` exclusion is inside the theorems now
+
+A dictionary-encoded `String` directly below an `Option<struct>` makes `safeFs` false (C01's `dict_placeholder_unstable`
+shape: the `None` of the outer option sends the placeholder key 0 into NON-nullable dictionary keys); a nullable one
+(`Option<String>`) does not.  The former theorems assumed `safeFs`; the present ones do not: `exSafeFalse` below is
+accepted and round-trips, every hypothesis discharged. -/
 def exSafeFalse : Ty := .struct "W" (.cons "o" false (.option (.struct "I" (.cons "s" false (.prim .str) .nil))) .nil)
 def exSafeTrue : Ty := .struct "W" (.cons "o" false (.option (.struct "I" (.cons "s" false (.option (.prim .str)) .nil))) .nil)
 example : safeFs (mappingFields (viewOpts exDO) (tfieldsOf exSafeFalse)) = false ∧
     safeFs (mappingFields (viewOpts exDO) (tfieldsOf exSafeTrue)) = true ∧
     safeFs (mappingFields (viewOpts exO) (tfieldsOf exSafeFalse)) = true := by decide +kernel
+
+def exWBatch : List Val :=
+  [.struct (.cons .none .nil), .struct (.cons (.some (.struct (.cons (.str "x") .nil))) .nil), .struct (.cons .none .nil)]
+def exWFields : List Field := match Trace.fromType .fixed exDO (toTraceTy exSafeFalse) with | .ok fs => fs | .error _ => []
+theorem exWTrace : Trace.fromType .fixed exDO (toTraceTy exSafeFalse) = .ok exWFields := by decide +kernel
+
+/-- the traced schema: a `Dictionary(UInt32, LargeUtf8)` with NON-nullable keys below the nullable struct `o` … -/
+example : exWFields = [.mk "o" (.struct (.cons (.mk "s" (.dictionary .uint32 .largeUtf8) false []) .nil)) true []] := by
+  decide +kernel
+
+/-- … whose fresh builder is outside C01's `Safe` (`C04_safe_traced_iff`) -/
+example : ∀ root0, newRoot exWFields = .ok root0 → ¬ Safe root0 := by
+  intro root0 h0 hs
+  have := (C04_safe_traced_iff (viewOpts exDO) (tfieldsOf exSafeFalse) exWFields
+    (C04_fromType_fields .fixed exDO rfl "W" _ exWFields exWTrace) root0 h0).mp hs
+  revert this; decide +kernel
+
+/-- acceptance (`C04_accept`) and the end-to-end theorem (`C04_end_to_end_partial`) apply to it, every hypothesis
+discharged: the batch `None, Some(I { s: "x" }), None` is accepted against the traced schema and, the arrays being
+`physical`, read back as it is -/
+example : ∃ fields arrs, Trace.fromType .fixed exDO (toTraceTy exSafeFalse) = .ok fields ∧
+    toMarrow {} fields (exWBatch.map (ser exSafeFalse)) = .ok arrs ∧
+    ((∀ a ∈ arrs, Read.physical a = true) →
+      readAll (toTarget exSafeFalse) fields arrs = .ok (exWBatch.map fun v => dvalOf exSafeFalse (norm exSafeFalse v))) :=
+  C04_end_to_end_partial .fixed exDO {} "W" _ exWBatch rfl (by decide +kernel) (by decide +kernel) (by simp)
+    (by decide +kernel) (by decide +kernel) exExtOK (by decide +kernel) (by decide +kernel) (by decide +kernel) (by decide +kernel)
 
 end SaModel.Props.C04
